@@ -198,7 +198,7 @@ func (k *c47) exhaustive(ty oracle.Type, st sema.Type, m uint64, counts []uint32
 				ty.Name, m, v, counts[v], want, total, n, acceptedN)
 		}
 	}
-	if k.rec.WantSample("exhaustive/" + ty.Name) {
+	if nt && m > 2 && k.rec.WantSample("exhaustive/"+ty.Name) {
 		k.rec.Sample("exhaustive/"+ty.Name, map[string]any{"type": ty.Name, "modulo": m, "draw_bytes": n, "draws": total, "accepted": acceptedN, "each_value_hit": want})
 	}
 }
